@@ -185,3 +185,17 @@ func (a *Asm) Finish() {
 }
 
 func (a *Asm) Blob(jump []uint64, z int) []byte { return EncodeBlob(a.Code, a.Mask, jump, z) }
+
+// StdBlob wraps a program blob into the standard program format of GP A.7:
+// E3(|o|) E3(|w|) E2(z) E3(s) o w E4(|c|) c.
+func StdBlob(o, w []byte, z uint16, s uint32, code []byte) []byte {
+	le := func(v uint64, n int) []byte { return immBytes(v, n) }
+	out := le(uint64(len(o)), 3)
+	out = append(out, le(uint64(len(w)), 3)...)
+	out = append(out, le(uint64(z), 2)...)
+	out = append(out, le(uint64(s), 3)...)
+	out = append(out, o...)
+	out = append(out, w...)
+	out = append(out, le(uint64(len(code)), 4)...)
+	return append(out, code...)
+}
